@@ -32,7 +32,7 @@ from .common import Ctx, python_flags
 RULE = ("schedules of 3-14 send/finish/sleep actions over 1-3 component groups (incl. overlapping sets), each "
         "action with or without yielding to the loop, instant/slow/failing completions; non-trivial = some request "
         "arrived while another of its group was in flight; thorough adds ALL admissible event sequences of length "
-        "7 over 2 groups (every prefix is checked on the way); distinct by canonical JSON hash")
+        "7 over 2 groups and of length 5 over 3 groups (every prefix is checked on the way); distinct by canonical JSON hash")
 
 
 def oracle(ctx: Ctx, script: dict, obs: dict) -> set[str]:
@@ -145,7 +145,7 @@ def run(ctx: Ctx) -> None:
 
     for script in load_corpus():
         add(script, True)
-    n = ctx.budget(400, 8000)
+    n = ctx.budget(600, 12000)
     for k in range(n):
         rng = ctx.subrng("script", k)
         script = g.gen_actor_script(rng, rng.choice([1, 2, 2, 3]), rng.randint(3, 14))
@@ -154,7 +154,12 @@ def run(ctx: Ctx) -> None:
     length = 4 if ctx.tier == "quick" else 7
     for script in g.enum_actor_scripts(2, length):
         add(script, independence=True)
-    ctx.extra["exhaustive_scope"] = f"all admissible event sequences of length {length} over 2 groups"
+    scope = f"all admissible event sequences of length {length} over 2 groups"
+    if ctx.tier == "thorough":
+        for script in g.enum_actor_scripts(3, 5):
+            add(script, independence=True)
+        scope += " and of length 5 over 3 groups"
+    ctx.extra["exhaustive_scope"] = scope
     ctx.compare("Distributor", cases, impls, what="start outputs / state snapshots / in-flight counts")
 
 
